@@ -3,6 +3,7 @@ package main
 // C16: schema resolution and validation terminate without crashing.
 
 import (
+	"go/constant"
 	"go/token"
 	"go/types"
 	"sort"
@@ -33,6 +34,7 @@ func runC16(p *Prog, r *Report) {
 	c16Loops(p, r)
 	c16IndexInRange(p, r)
 	c16EdgeFilter(p, r)
+	c16NamespaceAgreement(p, r)
 	c16ResolveOrder(p, r)
 	c16DegreeSymmetry(p, r)
 }
@@ -1951,4 +1953,117 @@ func loadAddr(v ssa.Value) ssa.Value {
 		return ld.X
 	}
 	return nil
+}
+
+// R16.2-namespace-agreement: the cycle detector resolves the references inside a common type relative to the namespace the
+// type was declared in (extractNamespace of its table key). The inliner must follow them the same way: wherever it looks a
+// common type up under a path P and descends into its body, the namespace it descends with is the namespace of P — the
+// prefix P was built from, extractNamespace(P), or the empty namespace when P is a bare unqualified name. Otherwise the
+// inliner walks edges the detector never saw, and a cycle through them recurses until the stack overflows.
+func c16NamespaceAgreement(p *Prog, r *Report) {
+	const rule = "R16.2-namespace-agreement"
+	rt := p.fn(pResolved, "resolverState.resolveType")
+	if rt == nil {
+		r.Anchor(rule, "resolved.resolverState.resolveType")
+		return
+	}
+	n := 0
+	for _, fn := range p.Funcs {
+		if fnPkgPath(fn) != pResolved || len(fn.Blocks) == 0 {
+			continue
+		}
+		ord := 0
+		for _, c := range callsIn(fn) {
+			call, ok := c.(*ssa.Call)
+			if !ok || call.Call.StaticCallee() != rt || len(call.Call.Args) != 3 {
+				continue
+			}
+			// is the type argument a body taken out of the common-type table?
+			ex, ok := call.Call.Args[2].(*ssa.Extract)
+			if !ok || ex.Index != 0 {
+				continue
+			}
+			lk, ok := ex.Tuple.(*ssa.Lookup)
+			if !ok {
+				continue
+			}
+			if _, f := fieldAddrName(loadAddr(lk.X)); f != "commonTypes" {
+				continue
+			}
+			n++
+			ord++
+			construct := fnQual(fn) + ":inline#" + itoa(ord)
+			ns, key := call.Call.Args[1], lk.Index
+			why := ""
+			// (a) ns = extractNamespace(key)
+			if ec, ok := ns.(*ssa.Call); ok && ec.Call.StaticCallee() != nil && ec.Call.StaticCallee().Name() == "extractNamespace" && ec.Call.Args[0] == key {
+				why = "descends with extractNamespace of the looked-up path"
+			}
+			// (b) key = Path(string(ns) + "::" + …)
+			if why == "" {
+				if bo, ok := stripConv(key).(*ssa.BinOp); ok && bo.Op == token.ADD {
+					var parts []ssa.Value
+					var flat func(v ssa.Value)
+					flat = func(v ssa.Value) {
+						if b, ok := v.(*ssa.BinOp); ok && b.Op == token.ADD && basicKind(b.Type()) == types.String {
+							flat(b.X)
+							flat(b.Y)
+							return
+						}
+						parts = append(parts, v)
+					}
+					flat(bo)
+					if len(parts) >= 3 && stripConv(parts[0]) == stripConv(ns) {
+						if sep, ok := parts[1].(*ssa.Const); ok && sep.Value != nil && sep.Value.Kind() == constant.String && constant.StringVal(sep.Value) == "::" {
+							why = "descends with the namespace the looked-up path was prefixed with"
+						}
+					}
+				}
+			}
+			// (c) a bare name: key is the unqualified reference itself and the namespace is the empty one
+			if why == "" {
+				if k, ok := ns.(*ssa.Const); ok && k.Value != nil && k.Value.Kind() == constant.String && constant.StringVal(k.Value) == "" {
+					if _, isPar := stripConv(key).(*ssa.Parameter); isPar {
+						unq := false
+						for _, g := range guardsAt(call.Block()) {
+							fg := flattenGuard(g)
+							if cc, ok := fg.Cond.(*ssa.Call); ok && !fg.Pol && cc.Call.StaticCallee() != nil && stdName(cc.Call.StaticCallee()) == "strings.Contains" {
+								if sep, ok := cc.Call.Args[1].(*ssa.Const); ok && sep.Value != nil && constant.StringVal(sep.Value) == "::" && stripConv(cc.Call.Args[0]) == stripConv(key) {
+									unq = true
+								}
+							}
+						}
+						if unq {
+							why = "an unqualified name looked up as such descends with the empty namespace"
+						}
+					}
+				}
+			}
+			r.Check(why != "", rule, construct, p.pos(call.Pos()), why,
+				"a common type looked up under "+describeVal(key)+" is inlined relative to "+describeVal(ns)+", which is not the namespace of that path: the cycle detector resolves the type's references relative to its declaring namespace, so the inliner can follow a cycle the detector never saw")
+		}
+	}
+	r.Check(n >= 3, rule, "sites", "-", itoa(n)+" places inline a common type's body", "expected at least 3 places that inline a common type's body, found "+itoa(n))
+	// the detector's side: namespace = extractNamespace(table key)
+	det := p.fn(pResolved, "resolverState.detectCommonTypeCycles")
+	if det == nil {
+		r.Anchor(rule, "resolved.resolverState.detectCommonTypeCycles")
+		return
+	}
+	good := false
+	for _, c := range callsIn(det) {
+		cc := c.Common()
+		if cc.StaticCallee() == nil || cc.StaticCallee().Name() != "resolveTypeRefPath" || len(cc.Args) != 3 {
+			continue
+		}
+		if ec, ok := cc.Args[1].(*ssa.Call); ok && ec.Call.StaticCallee() != nil && ec.Call.StaticCallee().Name() == "extractNamespace" {
+			if ex, ok := ec.Call.Args[0].(*ssa.Extract); ok {
+				if _, isNext := ex.Tuple.(*ssa.Next); isNext && ex.Index == 1 {
+					good = true
+				}
+			}
+		}
+	}
+	r.Check(good, rule, "resolved.resolverState.detectCommonTypeCycles:namespace", p.pos(det.Pos()), "the detector resolves a type's references relative to extractNamespace of its table key",
+		"the cycle detector does not resolve a common type's references relative to the namespace of its table key")
 }
